@@ -414,6 +414,45 @@ def run(prog, rep):
                           f'assigned (not extended): only what the last iteration produced survives - here the delegation ids of the last '
                           f'delegation type found on the node, so a node delegated under another id through the other type is not a keep '
                           f'node of that partition and is deleted from it')
+    # ---- R9: every partition gets a graph id of its own ----
+    rep.rule('R9', 'the generated graph id of a partition is produced inside the per-delegation iteration', floor=1)
+    dinfo = [c for c in ast.walk(ga) if isinstance(c, ast.Call) and ast.unparse(c.func).endswith('DelegationInfo')]
+    if not dinfo:
+        raise AnalysisError('generate_adms: DelegationInfo construction not found')
+    for c in dinfo:
+        gid = next((k.value for k in c.keywords if k.arg == 'graph_id'), c.args[0] if c.args else None)
+        if gid is None:
+            raise AnalysisError('generate_adms: DelegationInfo without graph_id')
+        # the iteration the construction belongs to: an enclosing comprehension or for-loop
+        scope = None
+        p_ = getattr(c, '_parent', None)
+        while p_ is not None and p_ is not ga:
+            if isinstance(p_, (ast.DictComp, ast.ListComp, ast.SetComp, ast.GeneratorExp, ast.For)):
+                scope = p_
+                break
+            p_ = getattr(p_, '_parent', None)
+        if scope is None:
+            raise AnalysisError('generate_adms: DelegationInfo is not built per delegation id')
+        inside_names = {x.id for x in ast.walk(scope) if isinstance(x, ast.Name) and isinstance(x.ctx, ast.Store)}
+        fresh_inside = any(isinstance(x, ast.Call) and ast.unparse(x.func).endswith('uuid4') for x in ast.walk(gid))
+        outer = []
+        for x in ast.walk(gid):
+            if isinstance(x, ast.Name) and isinstance(x.ctx, ast.Load) and x.id not in inside_names:
+                for a_ in walk_no_nested(ga):
+                    if isinstance(a_, ast.Assign) and any(isinstance(t, ast.Name) and t.id == x.id for t in a_.targets) and \
+                            any(isinstance(y, ast.Call) and ast.unparse(y.func).endswith('uuid4') for y in ast.walk(a_.value)) and \
+                            not any(a_ is z for z in ast.walk(scope)):
+                        outer.append((x.id, a_))
+        rep.instance('R9', f'generate_adms: partition graph id {norm(gid, 80)}: generated per delegation: {fresh_inside and not outer}')
+        for nm_, a_ in outer:
+            rep.violation('R9', loc(mod, a_), 'ABCARMPropertyGraph.generate_adms', f'`{nm_}` generated once, used for every delegation',
+                          f'the fallback graph id `{nm_}` is generated once, before the iteration over the delegation ids, and handed to every '
+                          f'partition that has no id of its own: two such partitions get the same graph id, and the clone made for the second '
+                          f'replaces the first in the store')
+        if not fresh_inside and not outer and not any(isinstance(x, ast.Name) and x.id in inside_names for x in ast.walk(gid)):
+            rep.violation('R9', loc(mod, c), 'ABCARMPropertyGraph.generate_adms', f'graph id {norm(gid, 60)} does not vary with the delegation',
+                          'every partition is given the same graph id')
+
     # ---- R8: the codec the rewrite relies on ----
     rep.rule('R8', 'the delegation codec used to write the per-id subsets is faithful (shared with C12)', floor=8)
     c12.check_delegation_codec(prog, rep, 'R8')
